@@ -251,6 +251,29 @@ def placed_body(kind, name, quat, start=0):
     return body
 
 
+# solids whose circumsphere exists but is not their smallest enclosing ball (circumcentre outside the body)
+EXTRA_SOLIDS = {"flat_tetra": [(-3, 0, 0), (3, 0, 0), (0, 1, 0), (0, 0, 1)],
+                "obtuse_prism": [(-3, 0, 0), (3, 0, 0), (0, 1, 0), (-3, 0, 1), (3, 0, 1), (0, 1, 1)]}
+
+
+def _solid(name):
+    return SH.CONVEX[name] if name in SH.CONVEX else EXTRA_SOLIDS[name]
+
+
+def _exact_ball_claims(H, tag, ball, placed_fractions):
+    cen, r2 = O.min_enclosing_ball([[F(c) for c in p] for p in placed_fractions])
+    c = list(ball.centroid)
+    if H.symbolic:
+        H.claim_all_eq(tag + ".centre=smallest_enclosing_ball", c[:len(cen)], cen)
+        H.claim_eq(tag + ".radius^2=smallest_enclosing_ball", ball.radius * ball.radius, r2)
+    else:
+        # the real miniball is an iterative float routine: 1e-6 of the radius is its accuracy here, far below any wrong ball
+        tol = 1e-6 * max(1.0, float(r2) ** 0.5)
+        for k in range(len(cen)):
+            H.claim(tag + ".centre=smallest_enclosing_ball[%d]" % k, abs(float(c[k]) - float(cen[k])) <= tol)
+        H.claim(tag + ".radius^2=smallest_enclosing_ball", abs(float(ball.radius) ** 2 - float(r2)) <= 2 * tol * max(1.0, float(r2) ** 0.5))
+
+
 def miniball_body(kind, name, quat):
     """Concrete placement: coxeter's wrapper around miniball returns the smallest enclosing ball."""
     def body(H, V):
@@ -258,7 +281,7 @@ def miniball_body(kind, name, quat):
 
         off = [F(3), F(-2), F(5)]
         if kind == "Polyhedron":
-            P = [[H.num(c) for c in p] for p in SH.place(SH.CONVEX[name], quat, 1, off)]
+            P = [[H.num(c) for c in p] for p in SH.place(_solid(name), quat, 1, off)]
             p = S.ConvexPolyhedron(H.arr(P))
             ball = p.minimal_bounding_sphere
         else:
@@ -271,6 +294,8 @@ def miniball_body(kind, name, quat):
         # smallest: a minimal ball has at least two vertices on its boundary (necessary condition; minimality itself is miniball's contract)
         H.claim("minimal_bounding.has_two_support_points", sum(1 for x in d2 if bool(H.eqb(x, r * r))) >= 2)
         H.claim_eq("minimal_bounding.radius_getter", (p.minimal_bounding_sphere_radius if kind == "Polyhedron" else p.minimal_bounding_circle_radius), r)
+        # the ball itself, against an exact brute-force computation on the same points (the wrapper must not substitute another ball)
+        _exact_ball_claims(H, "minimal_bounding", ball, SH.place(_solid(name) if kind == "Polyhedron" else [(x, y, 0) for x, y in SH.POLYGONS[name]], quat, 1, off))
 
     return body
 
@@ -436,7 +461,8 @@ def obligations(tier, seed):
     for nm, q, st in starts:
         add("C13/centred.ConvexPolygon.%s.%s.start%d" % (nm, q, st), ["s", "tx", "ty", "tz"], placed_body("ConvexPolygon", nm, q, st), positive=["s"], first=first,
             bounds="ConvexPolygon %s listed from vertex %d, free scale/translation, rotation %s" % (nm, st, q), paths=(3 if tier == "quick" else 10))
-    for kind, nm, q in [("Polyhedron", "skew", "r1"), ("Polyhedron", "cube", "r2"), ("Polygon", "arrow", "r1"), ("Polygon", "L", "id")]:
+    for kind, nm, q in [("Polyhedron", "skew", "r1"), ("Polyhedron", "cube", "r2"), ("Polygon", "arrow", "r1"), ("Polygon", "L", "id"),
+                        ("Polyhedron", "flat_tetra", "r1"), ("Polyhedron", "obtuse_prism", "id"), ("Polygon", "tri", "r2")]:
         add("C13/minimal_bounding.%s.%s.%s" % (kind, nm, q), ["dummy"], miniball_body(kind, nm, q), first=dict(dummy=F(1)),
             bounds="%s %s concrete placement (rotation %s, offset (3,-2,5))" % (kind, nm, q), paths=2)
     retry = [("Polyhedron", "cube", "r2", 1), ("Polyhedron", "cube", "r2", 2), ("Polygon", "L", "id", 1), ("Polygon", "L", "id", 2), ("Polygon", "arrow", "r1", 3)]
